@@ -218,8 +218,8 @@ NextGroup ==
   /\ UNCHANGED <<blocks, bi, pb, cache, out, err>>
 
 (* ------------------------------- the machine ---------------------------- *)
-Inputs == UNION {{c.file.blocks : c \in Family(f, Full, Seed)} : f \in Fams}
-Init == /\ blocks \in Inputs
+\* the blocks of every file of the chosen families (the same files the real scanner is given with one decoder)
+Init == /\ \E f \in Fams : \E x \in FamShapes(f, Full, Seed) : blocks = FamBuild(f, Full, Seed, x).file.blocks
         /\ bi = 0 /\ gi = 1 /\ ei = 1
         /\ pb = [gran |-> << >>, latoff |-> << >>, lonoff |-> << >>, dgran |-> << >>, st |-> <<EmptyStr>>]
         /\ cache = [EmptyCache EXCEPT !["memids"] = [data |-> << >>, base |-> -1, acc0 |-> 0]]
